@@ -885,6 +885,17 @@ def move_before_loop(source: str) -> str:
             if any(core.walk(scope, ast.AugAssign(target=ast.Name(id=targets)))):
                 continue  # i.e. x += 1
 
+            # If the loop reads the variable and assigns it again afterwards, the next iteration
+            # must not read what that assignment leaves behind.
+            is_read = is_reassigned = False
+            for statement in scope.body[i + 1 :]:
+                is_read |= any(core.walk(statement, ast.Name(id=targets, ctx=ast.Load)))
+                if any(core.walk(statement, ast.Name(id=targets, ctx=(ast.Store, ast.Del)))):
+                    is_reassigned = True
+                    break
+            if is_read and is_reassigned:
+                continue
+
             remainder = scope.body[i + 1 :] + scope.body[:i]
             definite_created_names, maybe_created_names, _ = tracing.code_dependencies_outputs(
                 remainder
